@@ -33,6 +33,14 @@ type channelHolder struct {
 
 func (c *channelHolder) HandleActive(ctx ActiveContext) {
 	c.addChannel(ctx.Channel())
+
+	// the channel context may have ended while the channel was being set up (Bootstrap.Shutdown cancels it
+	// before CloseAll, which may already have run and missed this channel): close it now, the later active
+	// handlers and the read loop may block in the transport and would never notice.
+	if err := ctx.Channel().Context().Err(); nil != err {
+		ctx.Close(err)
+	}
+
 	ctx.HandleActive()
 }
 
